@@ -40,7 +40,8 @@ TLTimeout == Is("LTimeout") /\ LTimeout
 TLClose == Is("LClose") /\ OldServerExits
 TNew == Is("NewServerStarts") /\ NewServerStarts
 \* ---- session manager
-TMIgnore == Is("MIgnore") /\ MOnHR(E.s) /\ Head(s2c[E.s]) = E.a
+TMIgnore == /\ Is("MIgnore") /\ Head(s2c[E.s]) = E.a
+            /\ (MOnHR(E.s) \/ MIgnoreClosing(E.s))
             /\ UNCHANGED <<mstate, mepoch, cur, reserve, nextId>>
 TMRepeat == Is("MRepeat") /\ MOnHR(E.s) /\ Head(s2c[E.s]) = E.a /\ UNCHANGED <<cur, reserve, nextId>> /\ mepoch' = E.a
 TMConnFail == Is("MConnFail") /\ MOnHR(E.s) /\ Head(s2c[E.s]) = E.a /\ nextId' = nextId /\ Connect = "none" /\ mepoch' = E.a
